@@ -249,6 +249,15 @@ def spelling_part(n, seed):
             plb, pub = lb + 1, ub - 1
             lb[0], ub[0] = -np.inf, np.inf
         x0 = np.round((plb + pub) / 2) if kind != "log" else plb + 1
+        # starts ON a finite hard bound (the constructor moves its own copy inside): integer spellings must
+        # be normalised exactly like float ones
+        where0 = rs.choice(["mid", "onlb", "onub", "mixed"], p=[0.4, 0.2, 0.2, 0.2])
+        if where0 != "mid":
+            for i_ in range(D):
+                if where0 == "onlb" or (where0 == "mixed" and i_ % 2 == 0):
+                    x0[i_] = lb[i_] if np.isfinite(lb[i_]) else x0[i_]
+                else:
+                    x0[i_] = ub[i_] if np.isfinite(ub[i_]) else x0[i_]
         give_x0 = rs.rand() < 0.6
         give_pl = rs.rand() < 0.7 or kind in ("unb", "mixed")
         base_args = (x0 if give_x0 else None, lb, ub, plb if give_pl else None, pub if give_pl else None)
